@@ -42,19 +42,8 @@ var gbyTransaction = gbyTable{
 func runC11(p *Prog, r *Report) {
 	if want("C11.1") {
 		ruleSeqAtomic(p, r, "C11.1")
-		r.Begin("C11.1b", "E-FLOW", "transaction entries are keyed tr.seq+1 and tr.seq advances only after a successful insert; the transaction's record is committed only by Commit", 4)
-		if fn := resolveFn(p, r, "leveldb", "(*Transaction).put"); fn != nil {
-			checkCallArg(p, r, fn, "keyed-seq+1", "leveldb.makeInternalKey", 2, func(v ssa.Value) bool {
-				b, ok := v.(*ssa.BinOp)
-				return ok && b.Op == token.ADD && isFieldLoad(b.X, tTr, "seq") && mConstInt(1)(b.Y)
-			}, "tr.seq+1")
-			put := evCall("(*leveldb/memdb.DB).Put")
-			ordPrecede(p, r, fn, "insert-before-advance", nil, put, "tr.mem.Put", evStoreField(tTr, "seq"), "tr.seq++")
-			ordNotOnError(p, r, fn, "no-advance-on-failed-insert", mErrOfCall("(*leveldb/memdb.DB).Put"), "tr.mem.Put", put, evStoreField(tTr, "seq"), "tr.seq++")
-			ordNotOnError(p, r, fn, "no-insert-on-failed-flush", mErrOfCall("(*leveldb.Transaction).flush"), "tr.flush", evCall("(*leveldb.Transaction).flush"), put, "tr.mem.Put")
-			// room check precedes the insert
-			checkCallArg(p, r, fn, "inserts-internal-key", "(*leveldb/memdb.DB).Put", 1, func(v ssa.Value) bool { return isFieldLoad(stripConv(v), tTr, "ikScratch") }, "the internal key just built")
-		}
+		ruleTrRecordSeq(p, r, "C11.1b")
+		r.Begin("C11.1c", "E-REACH", "the transaction's record is committed only by Commit", 1)
 		n := 0
 		for _, fn := range p.SrcFuncs("leveldb") {
 			for _, c := range findCalls(fn, fCommit) {
